@@ -22,13 +22,18 @@ def generate(seed, tier):
         rng = derived_rng(seed, 'C10', i)
         while True:
             ds = gen.gen_dataset(rng, max_dims=3, max_size=4)
-            if i % 7 == 6:
+            if i % 7 == 6 or i % 7 == 3:
                 side = rng.choice(['pos', 'spec'])
                 ds[side] = {'sizes': [1], 'rate': [0], 'labels': [ds[side]['labels'][0]], 'units': ['u'], 'values': [[2]]}
+                if i % 7 == 3:
+                    # the other side: every dimension multi-valued, so that squeezing removes exactly the single point's axis
+                    other = 'spec' if side == 'pos' else 'pos'
+                    ds[other]['sizes'] = [max(2, x) for x in ds[other]['sizes']]
+                    ds[other]['values'] = [list(range(3 * d, 3 * d + 4 * x, 4)) for d, x in enumerate(ds[other]['sizes'])]
             if gen.n_points(ds['pos']) * gen.n_points(ds['spec']) <= 600 and \
                     all(len(s['sizes']) <= gen.n_points(s) for s in (ds['pos'], ds['spec'])):
                 break
-        cases.append({'ds': ds, 'anc': rng.choice(['h5py', 'numpy', 'dask']), 'squeeze': rng.random() < 0.3,
+        cases.append({'ds': ds, 'anc': rng.choice(['h5py', 'numpy', 'dask']), 'squeeze': rng.random() < 0.3 or i % 7 == 3,
                       'bad': rng.choice([None, None, None, 'count', 'rank']), 'pick': rng.randint(0, 7)})
     return cases
 
@@ -122,8 +127,18 @@ def oracle(inp, obs):
         for key in ('both', 'both_dask_data'):
             b = obs[key]
             if inp['squeeze'] and obs['arr_shape'] != obs['nd']['shape']:
-                # a squeezed array may be refused; if something is returned it must hold main's elements in order
-                if 'err' not in b and b['flat'] != obs['main']['flat']:
+                # squeezing that removed exactly the one axis of a single-point side must still work
+                only_single = (n == 1) != (m == 1) and len(obs['arr_shape']) == len(obs['nd']['shape']) - 1 and \
+                    len(ds['pos' if n == 1 else 'spec']['sizes']) == 1
+                if only_single:
+                    if 'err' in b:
+                        fails.append('squeezed-single-point-raises: flattening the N-D form whose single-point axis was '
+                                     'squeezed out raised %s (%s ancillaries)' % (b['cls'], inp['anc']))
+                    elif b['flat'] != obs['main']['flat'] or (len(obs['arr_shape']) >= 2 and b['shape'] != obs['main']['shape']):
+                        # (an array squeezed down to ONE axis is returned as it is, by design: only its elements are compared)
+                        fails.append('squeezed-single-point: flattening the squeezed N-D form does not return the original matrix')
+                # any other squeezed array may be refused; if something is returned it must hold main's elements in order
+                elif 'err' not in b and b['flat'] != obs['main']['flat']:
                     fails.append('squeezed-permuted: flattening a squeezed N-D form returned rearranged data')
                 continue
             if 'err' in b:
